@@ -46,14 +46,18 @@ class Abort(Exception):
 	pass
 
 
-def run(root, mode: str, nested_kinds: set[str], abort_at: int | None = None) -> Recorder:
+_shared: dict = {}   # one long-lived Procedure per shard (mode 'reused'): consecutive modules share the module path '__main__', so nodes of two
+                     # revisions are equal by (module path, full path) although their trees differ — what an interactive session does
+
+
+def run(root, mode: str, nested_kinds: set[str], abort_at: int | None = None, reuse: bool = False) -> Recorder:
 	"""mode: 'fallback' | 'exact'. With abort_at a first run on the same Procedure is aborted by an exception raised in the handler of the
 	abort_at-th node (the caller catches it, as the interactive mode does); the judged run is the one after it."""
 	from rogw.tranp.errors import Errors
 	from rogw.tranp.semantics.procedure import Procedure
 
 	rec = Recorder()
-	proc = Procedure()
+	proc = Procedure() if not reuse else _shared.setdefault('proc', Procedure())
 	depth = {'n': 0}
 	aborting = {'left': abort_at}
 
@@ -86,7 +90,12 @@ def run(root, mode: str, nested_kinds: set[str], abort_at: int | None = None) ->
 				break
 		return node
 
-	if mode == 'fallback':
+	if mode == 'fallback' and reuse:
+		if 'handler' not in _shared:
+			_shared['handler'] = True
+			proc.on('on_fallback', lambda node, **event: _shared['record'](node, event))
+		_shared['record'] = record
+	elif mode == 'fallback':
 		proc.on('on_fallback', lambda node, **event: record(node, event))
 	else:
 		made: set[str] = set()
@@ -125,7 +134,7 @@ def run(root, mode: str, nested_kinds: set[str], abort_at: int | None = None) ->
 		return rec
 	if not same(result, root):
 		rec.fails.append(('exec:result', f'exec(root) returned {result!r}'))
-	if abort_at is None and len(proc._Procedure__stacks) != 0:  # private state: only judged for runs without a caught abort before them
+	if abort_at is None and not reuse and len(proc._Procedure__stacks) != 0:  # private state: only judged for runs without a caught abort before them
 		rec.fails.append(('stack:depth', f'{len(proc._Procedure__stacks)} stacks left after exec'))
 	return rec
 
@@ -196,11 +205,13 @@ def judge(app, source: str, nested_kinds: list[str], abort_at: int | None = None
 	root = app.nodes_for(entry)
 	info = {'nontrivial': False, 'nodes': 0}
 	fails: list[tuple[str, str]] = []
-	for mode in ('fallback', 'exact') + (('after-abort',) if abort_at else ()):
+	for mode in ('fallback', 'exact') + (('after-abort',) if abort_at else ()) + ('reused',):
 		try:
 			if mode == 'after-abort':
 				rec = run(root, 'fallback', set(), abort_at)
 				info['aborted'] = rec.aborted
+			elif mode == 'reused':
+				rec = run(root, 'fallback', set(), None, reuse=True)
 			else:
 				rec = run(root, mode, set(nested_kinds) if mode == 'fallback' else set())
 			if not rec.fails:
